@@ -27,7 +27,8 @@ LEVEL = "model_checking"
 ENCODED = [("traits/adaptation/adaptation_manager.py",
             ["AdaptationManager.adapt", "AdaptationManager._adapt", "AdaptationManager._get_applicable_offers",
              "AdaptationManager.mro_distance_to_protocol", "AdaptationManager.provides_protocol",
-             "AdaptationManager.register_offer", "_by_weight_then_from_protocol_specificity"])]
+             "AdaptationManager.register_offer", "_by_weight_then_from_protocol_specificity", "adapt", "supports_protocol",
+             "reset_global_adaptation_manager", "set_global_adaptation_manager"])]
 EXPLANATION = ("Symbolic execution of the real adaptation search with symbolic conditional-factory outcomes per (offer, predecessor); "
                "z3 decides existence and minimality against a formula over all simple chains, universally over the outcomes the search "
                "never looked at. Offer endpoints and the hierarchy are enumerated through symbolic selectors.")
